@@ -92,7 +92,7 @@ PROPS = {
     "C02": cluster(["C02"], ["*"], ["role", "vote"], component=["RN", "C07"]),
     "C03": cluster(["C03"], ["*"], ["vote"], component="RN"),
     "C04": cluster(["C04"], ["*"], ["commit"], component=["RN", "C11"]),
-    "C05": cluster(["C05"], ["*"], ["log"], component="RN"),
+    "C05": cluster(["C05"], ["*"], ["log"], component=["RN", "C14"]),
     "C09": cluster(["C09"], ["bootstrap", "applyconf", "cfginit"], [], component="RN"),
     "C13": cluster(["C13"], ["sendapp", "sendhb"], [], component="RN"),
     "C20": cluster(["C20"], [], [], component="RN"),
